@@ -115,7 +115,7 @@ def run(prop, tier, seed, replay=None):
     if replay is None:
         for t in traces[:6]:
             for r in t:
-                if r["out"] and r["out"][0]["dur"] > 0:
+                if r.get("out") and r["out"][0]["dur"] > 0:
                     bad = copy.deepcopy(r)
                     bad["out"][0]["dur"] += 1
                     traces.append([bad])
@@ -143,6 +143,9 @@ def run(prop, tier, seed, replay=None):
             r = traces[i][info["l"] - 1]
             clause = info["clauses"].strip('"')
             case = cases[i * 500 + info["l"] - 1]
+            if r["op"] == "raised":
+                rep.violation(dict(op=r["fn"], clause=clause), "%s raised %s on %s" % (r["fn"], r["exc"], r["inp"]), dict(case=list(case), record=r))
+                continue
             rep.violation(dict(op=r["op"], clause=clause), "%s(%s%s%s) -> %s: %s" % (r["op"], short(r["A"]), ", " + short(r["B"]) if "B" in r else "", ", P=%s" % r["P"] if "P" in r else "", short(r["out"]), clause),
                           dict(case=list(case), record=r))
     rep.assumptions += ["an event occupies [ts, ts+dur]; 'non-overlapping' inputs: each event ends before or exactly when the next starts (zero-length events in gaps or on edges)",
